@@ -235,3 +235,14 @@ func init() {
 		fmt.Println(n)
 	}
 }
+
+func init() {
+	exploreExtra["argmax"] = func(p *Prog) {
+		c := NewCtx(p, "X", "quick")
+		c.quiet = true
+		ruleArgmax(c, "ARGMAX", p.ModulePkgs(), 0)
+		for _, o := range c.Obls {
+			fmt.Printf("%s\t%s\t%v\t%s\n", o.Pos, o.Instance, o.OK, short(o.Msg, 200))
+		}
+	}
+}
